@@ -1,7 +1,8 @@
 (* C20 -- property theorems only. *)
 From Coq Require Import List NArith Bool.
 Import ListNotations.
-Require Import Verif.Lib.Wire Verif.Lib.C20Types Verif.Gen.Facts_C20 Verif.Model.C20 Verif.Proofs.C20.
+Require Import Verif.Lib.Wire Verif.Lib.C20Types Verif.Gen.Facts_C20 Verif.Model.C20 Verif.Proofs.C20 Verif.Proofs.C20_commit.
+Require Verif.Model.C04.
 
 Theorem C20_keys_faithful : forall s k f,
   In s sites -> In (k, f) (s_keys s) ->
@@ -37,3 +38,26 @@ Print Assumptions C20_disabled_records_nothing.
 Theorem C20_get_after_add : forall s i, snd (get (add s i) (icat i) (idisc i)) = Some i.
 Proof. exact get_after_add. Qed.
 Print Assumptions C20_get_after_add.
+
+(* composed with the C04 commit model: entries follow the actions the commit executed *)
+Theorem C20_entries_follow_executed_actions : forall acts intrs_of s' c d,
+  commit_and_register true acts intrs_of = Ok s' ->
+  (lookup s' c d <> None <->
+   exists a i rs, In (C04.Run a) (snd (C04.commit acts)) /\ In (i, rs) (intrs_of a)
+                  /\ icat i = c /\ idisc i = d).
+Proof. exact entries_follow_executed_actions. Qed.
+Print Assumptions C20_entries_follow_executed_actions.
+
+Theorem C20_overridden_statement_has_no_entry : forall acts intrs_of s' a i rs,
+  commit_and_register true acts intrs_of = Ok s' ->
+  In (i, rs) (intrs_of a) ->
+  (forall b j rs', In (C04.Run b) (snd (C04.commit acts)) -> In (j, rs') (intrs_of b) ->
+                   (icat j, idisc j) <> (icat i, idisc i)) ->
+  lookup s' (icat i) (idisc i) = None.
+Proof. exact overridden_statement_has_no_entry. Qed.
+Print Assumptions C20_overridden_statement_has_no_entry.
+
+Theorem C20_disabled_commit_records_nothing : forall acts intrs_of,
+  commit_and_register false acts intrs_of = Ok init.
+Proof. exact disabled_commit_records_nothing. Qed.
+Print Assumptions C20_disabled_commit_records_nothing.
